@@ -132,3 +132,20 @@ Definition check_case (c : dcase) : bool :=
   forallb (closed_ok (dc_served c)) (all_reqs c)
   && forallb (endpoint_ok (dc_served c)) (all_reqs c)
   && (if heal_applies c then heal_ok c else true).
+
+(* ---- clause 3, second half: "starts serving" means it KEEPS serving.  Once the
+   failures are over and the healthy provider (full document) has been reached,
+   every later request is answered from then on -- none is turned away with 503 /
+   408 -- for as long as the provider keeps handing out that document, i.e. on
+   the operations that precede the first change of the provider's script. *)
+Fixpoint before_script (l : list obs_step) : list obs_step :=
+  match l with
+  | [] => []
+  | (OScript _ _, _, _) :: _ => []
+  | s :: r => s :: before_script r
+  end.
+
+Definition stays_ok (c : dcase) : bool :=
+  if heal_applies c
+  then forallb (fun q => negb (is_closed q)) (flat_map reqs_of_step (before_script (dc_steps c)))
+  else true.
